@@ -33,7 +33,7 @@ PROBES = ['unknown-object', 'unknown-method', 'invalid-args', 'interface-omitted
           'same-member-two-interfaces', 'dbusCaller-requested', 'inherited-interface-called', 'interface-bound-across-classes',
           'unencodable-return', 'invalid-error-name', 'peer-ping', 'several-calls-in-flight',
           'nested-exception-class', 'deferred-already-fired', 'export-over-exported-path', 'base-class-instance-first', 'call-after-unexport',
-          'two-callers-same-serial', 'error-name-per-instance']
+          'two-callers-same-serial', 'error-name-per-instance', 'implementation-fails-with-a-remote-error']
 COMPONENTS = {
     'real': ['txdbus.objects.DBusObjectHandler.handleMethodCallMessage / DBusObject.executeMethod',
              'txdbus.client.DBusClientConnection', 'txdbus.message / marshal', 'twisted Deferred'],
@@ -128,7 +128,8 @@ def scenario(ctx):
         if kind in (2, 3, 4):
             cls = {2: OddError, 3: NamedError, 4: BadNamedError}[kind]
             if kind == 2 and ds.flag(0.4):
-                cls = ds.pick([Outer.NestedError, LocalError, NonAsciiError, LongNameError])
+                cls = ds.pick([Outer.NestedError, LocalError, NonAsciiError, LongNameError, TypeError,
+                               NotImplementedError, NotImplementedError])
                 sim.probe('nested-exception-class')
             text = ds.pick(['kaboom', '', 'x: y', 'za\u017c\u00f3\u0142\u0107 \u20ac'])
             rec['outcome'] = 'raise'
@@ -137,7 +138,7 @@ def scenario(ctx):
                 sim.probe('invalid-error-name')
             if kind == 3 and ds.flag(0.4):
                 nm = ds.pick(['org.sim.Error.NotFound', 'org.sim.Error.Busy', 'org.sim.Error.Denied',
-                              'not valid either'])
+                              'not valid either', b'org.sim.Error.Bytes', 42])
                 rec['exc'] = (InstanceNamedError, text)
                 rec['exc_name'] = nm
                 sim.probe('error-name-per-instance')
@@ -335,7 +336,19 @@ def scenario(ctx):
                     sim.probe('deferred-fired-out-of-order')
                 if rig.conn.a.state != net.OPEN:
                     sim.probe('deferred-fired-after-loss')
-                how = ds.weighted([3, 1, 1])
+                how = ds.weighted([3, 1, 1, 0.7])
+                if how == 3:
+                    # the implementation passed the call on to another service, which failed: what
+                    # it raises is a RemoteError like any other exception
+                    from txdbus import error as t_error
+                    e = t_error.RemoteError('org.sim.Error.Deep')
+                    e.message = 'failed further down'
+                    rec['outcome'] = 'raise'
+                    rec['exc'] = (t_error.RemoteError, 'org.sim.Error.Deep: failed further down')
+                    sim.probe('implementation-fails-with-a-remote-error')
+                    sim.log('fire', 'remote-error')
+                    rig.call(rec['d'].errback, e)
+                    return
                 m = rec['m']
                 n = objgen.nargs(m.sig_out)
                 if how == 0:
@@ -510,7 +523,8 @@ def scenario(ctx):
         else:
             cls, text = rec['exc']
             if cls is InstanceNamedError:
-                name = rec['exc_name'] if '.' in rec['exc_name'] else 'org.txdbus.InvalidErrorName'
+                name = rec['exc_name'] if isinstance(rec['exc_name'], str) and '.' in rec['exc_name'] \
+                    else 'org.txdbus.InvalidErrorName'
             elif cls is NamedError:
                 name = NamedError.dbusErrorName
             elif cls in (BadNamedError, NonAsciiError, LongNameError):
